@@ -528,6 +528,9 @@ func z15Main(id string) {
 	by := map[string]z15Scenario{}
 	var names []string
 	for _, s := range scs {
+		if only := gos.Getenv("VERIF_SCENARIO"); only != "" && only != s.Name {
+			continue // (debugging aid; the run is then marked as not exhaustive below)
+		}
 		by[s.Name] = s
 		names = append(names, s.Name)
 	}
@@ -687,6 +690,9 @@ func z15Main(id string) {
 					z15Replay{Scenario: sc, Choices: mcrt.EncodeChoices(choices), Bounds: bounds, Total: capOf(name)})
 			}
 		}
+	}
+	if gos.Getenv("VERIF_SCENARIO") != "" {
+		r.NotExhaustive("VERIF_SCENARIO set: only one scenario was run")
 	}
 	var items []string
 	if !evid.IsWorker() {
